@@ -139,7 +139,7 @@ func c03Initiator(rc *RC) {
 	for i := range plan {
 		plan[i] = muts[ch.Int("script", len(muts))]
 	}
-	afterFinal := ch.Int("script", 3) // reply to the response that follows a final-in-challenge: 0 failure, 1 success, 2 silence
+	afterFinal := ch.Int("script", 5) // reply to the response that follows a final-in-challenge: 0 failure, 1 success, 2 silence, 3 an empty challenge, 4 a challenge with data
 	var prefNames []string
 	for _, p := range prefs {
 		prefNames = append(prefNames, p.Name)
@@ -272,6 +272,14 @@ func c03Initiator(rc *RC) {
 						fmt.Fprintf(sc, `<success xmlns='%s'/>`, nsSASL)
 						successAt = rc.S.Steps
 						sent = append(sent, "success(after final-in-challenge)")
+					case 3, 4:
+						// yet another challenge is not the receiver's verdict
+						data := ""
+						if afterFinal == 4 {
+							data = b64([]byte("more?"))
+						}
+						fmt.Fprintf(sc, `<challenge xmlns='%s'>%s</challenge>`, nsSASL, data)
+						sent = append(sent, "challenge(after final-in-challenge)")
 					default:
 						sent = append(sent, "silence(after final-in-challenge)")
 					}
